@@ -178,13 +178,23 @@ func c01Harness(cfg *Cfg) func(x *mc.Exec) {
 			if !k.Accelerated() {
 				return
 			}
-			fam := x.Choose(8, "shape")
+			fam := x.Choose(10, "shape")
 			if !cfg.Thorough && fam >= 3 && (k.Level == -1 || k.Kind == "flate4k" && k.Level > 2) {
 				return // quick tier: the sweeps run on one setting per distinct compressor (default = level 2; 4 KiB levels 3..9 = level 2)
 			}
 			var d []byte
 			var nm string
 			switch fam {
+			case 8: // Huffman depth beyond the limit with the longest codes at the very end of the input, 48 consecutive lengths
+				pad := x.Choose(48, "pad")
+				tl := 1 + x.Choose(4, "tail")
+				d = pieces.GeoTail(pad, tl, cfg.Seed)
+				nm = fmt.Sprintf("geotail(pad=%d,tail=%d)", pad, tl)
+			case 9: // 1-bit literal codes in single-literal tokens at the end of a buffer fill, every bit alignment
+				lead := x.Choose(32, "lead")
+				run := []int{8, 12, 16}[x.Choose(3, "run")]
+				d = pieces.HotTail(k.Fill(), run, lead, k.Fill()+3550, cfg.Seed)
+				nm = fmt.Sprintf("hottail(at=%d,run=%d,lead=%d)", k.Fill(), run, lead)
 			case 7: // 256 literals of one code length plus a halving chain of match lengths
 				r := []int{1, 2, 4, 8}[x.Choose(4, "literal-repeats")]
 				m := x.Choose(11, "chain")
